@@ -1,6 +1,6 @@
 #!/bin/sh
 # tools/seedtest.sh <patch.diff> <property> [tier]  — apply a seeded change to /repo, run the check, undo it.
-P="$1"; ID="$2"; T="${3:-quick}"
+P="$(readlink -f "$1")"; ID="$2"; T="${3:-quick}"
 cd /repo || exit 2
 if ! git apply --check "$P" 2>/dev/null; then echo "patch does not apply"; exit 2; fi
 git apply "$P"
